@@ -17,5 +17,8 @@ def run(pid, tier, replay):
     if pid == "C18":
         from . import p_ct
         return p_ct.main(pid, tier, replay)
+    if pid in ("C10",):
+        from . import p_src
+        return p_src.main(pid, tier, replay)
     print("unknown or unclaimed property %s" % pid)
     return 2
